@@ -283,12 +283,15 @@ func readVLQ(d []byte) (uint32, int, bool) {
 // the same key and channel; nothing is left sounding; no note-off without a
 // sounding note. Evaluated on the merged stream, with the most lenient
 // ordering inside one tick (releases of sounding notes first).
+// StrictTrackPairing: notes are paired inside each track chunk (see DESIGN 13).
+var StrictTrackPairing = true
+
 func checkNotes(s *SMF) *SMFError {
 	// When every track closes its own notes (per key and channel the track's
 	// note-ons and note-offs balance), the order inside the track is the
 	// order of the notes: judge each track strictly in that order.
 	balanced := true
-	for _, t := range s.Tracks {
+	for ti, t := range s.Tracks {
 		cnt := map[[2]byte]int{}
 		for _, e := range t.Events {
 			if e.Bytes[0] >= 0xF0 {
@@ -300,8 +303,26 @@ func checkNotes(s *SMF) *SMFError {
 				cnt[[2]byte{e.Channel(), e.Key()}]--
 			}
 		}
-		for _, n := range cnt {
-			if n != 0 {
+		keys := make([][2]byte, 0, len(cnt))
+		for k := range cnt {
+			keys = append(keys, k)
+		}
+		sort.Slice(keys, func(i, j int) bool {
+			if keys[i][0] != keys[j][0] {
+				return keys[i][0] < keys[j][0]
+			}
+			return keys[i][1] < keys[j][1]
+		})
+		for _, k := range keys {
+			if n := cnt[k]; n != 0 && StrictTrackPairing {
+				// a track chunk is what a strict reader reads: a note struck in
+				// one track and released in another is hanging in the first and
+				// unmatched in the second
+				if n > 0 {
+					return smfErr("hanging-note", "track %d: key %d channel %d is struck %d time(s) more than it is released inside this track", ti, k[1], k[0], n)
+				}
+				return smfErr("unmatched-off", "track %d: key %d channel %d is released %d time(s) more than it is struck inside this track", ti, k[1], k[0], -n)
+			} else if n != 0 {
 				balanced = false
 			}
 		}
